@@ -4,6 +4,7 @@ go 1.21
 
 require (
 	github.com/flynn/noise v1.0.0
+	github.com/quic-go/quic-go v0.37.4
 	go.brendoncarroll.net/p2p v0.0.0
 	go.uber.org/zap v1.24.0
 	golang.org/x/crypto v0.9.0
@@ -15,7 +16,6 @@ require (
 	github.com/golang/protobuf v1.5.3 // indirect
 	github.com/pkg/errors v0.9.1 // indirect
 	github.com/pmezard/go-difflib v1.0.0 // indirect
-	github.com/quic-go/quic-go v0.37.4 // indirect
 	github.com/stretchr/testify v1.8.4 // indirect
 	go.brendoncarroll.net/exp v0.0.0-20241118183830-280772e567eb // indirect
 	go.brendoncarroll.net/stdctx v0.0.0-20241118190518-40d09f4d11e7 // indirect
